@@ -81,16 +81,18 @@ func (t *Txn) Commit() error {
 		return ErrConflictTxn
 	}
 
-	// TODO: support txn crush recovery (txnEnt and txnFin)
-
+	// all writes of the txn go to the wal with a single append (one Write, one fsync):
+	// after a crash either all of them are recovered or none
+	entries := make([]types.Entry, 0, len(t.pendingWrites))
 	for _, v := range t.pendingWrites {
-		t.db.rawset(types.Entry{
+		entries = append(entries, types.Entry{
 			Key:       types.KeyWithTs(v.Key, commitTs),
 			Value:     v.Value,
 			Tombstone: v.Tombstone,
 			Version:   int64(commitTs),
 		})
 	}
+	t.db.rawset(entries...)
 
 	orc.doneCommit(commitTs)
 
